@@ -12,6 +12,7 @@ Only property theorems and non-vacuity examples live here.
 -/
 import Ampverif.Gen.C12
 import Ampverif.Lemmas.C12Hankel
+import Ampverif.Model.C12Builder
 import Mathlib.Tactic.Ring
 import Mathlib.Tactic.FieldSimp
 import Mathlib.Tactic.IntervalCases
@@ -19,7 +20,7 @@ import Mathlib.Tactic.LinearCombination
 import Mathlib.Tactic.Positivity
 
 namespace Ampverif.Props.C12
-open Ampverif.Gen.C12 Ampverif.Lemmas.C12
+open Ampverif.Gen.C12 Ampverif.Lemmas.C12 Ampverif.C12Builder
 
 /-! ### Energy-dependent width -/
 
@@ -135,6 +136,59 @@ theorem builder_full_at_pole (ff : ℝ → ℝ → ℝ → ℕ → ℝ → ℂ) 
   generalize ff (m_R ^ 2) m_a m_b L d_R = f
   field_simp
   linear_combination (-f) * Complex.I_sq
+
+/-! ### Histories of calls on one builder object (`Model/C12Builder.lean`)
+
+The builder is a configuration `(form_factor, energy_dependent_width, phsp_factor)`; `Out` names
+which of the regenerated lineshapes above a call returns. The model is tied to the real class on
+every run by the history correspondence (`tools/corr/C12_history.py`: the same call sequences —
+mixing pools with `L = None`, `0`, `1`, `2`, several resonances, fresh and module-level builder
+objects — are run on the real code and on the model's driver and compared line by line). -/
+
+/-- On the clean tree's builder a call never changes the builder's state. -/
+theorem builder_call_state (c : Config) (a : Args) : (call Variant.soundV c a).2 = c := by
+  unfold call
+  cases a.L <;> simp <;> split <;> rfl
+
+/-- **Purity of `__call__`**: for every configuration and every history of calls on ONE builder
+object, the outputs are exactly what a FRESH builder of that configuration returns for each call,
+and the builder's attributes are unchanged at the end. -/
+theorem builder_history_pure (c : Config) (hist : List Args) :
+    run Variant.soundV c hist = (fresh Variant.soundV c hist, c) := by
+  induction hist with
+  | nil => rfl
+  | cons a rest ih =>
+    have hs := builder_call_state c a
+    simp only [run, fresh, List.map_cons]
+    rw [hs, ih]
+    rfl
+
+/-- …so the output of call `k` depends only on `(configuration, arguments of call k)`. -/
+theorem builder_call_k (c : Config) (hist : List Args) (k : Nat) (hk : k < hist.length) :
+    (run Variant.soundV c hist).1[k]? = some (call Variant.soundV c hist[k]).1 := by
+  rw [builder_history_pure]
+  simp [fresh, hk]
+
+/-- What a call without angular momentum does (pinned on the clean tree as a fact on every run):
+the plain builder returns the plain Breit–Wigner, every other flag combination raises. -/
+theorem builder_call_none (c : Config) (res pool : Nat) :
+    (call Variant.soundV c ⟨res, none, pool⟩).1
+      = if c.ff || c.edw then Out.valueError else Out.plain res pool := by
+  unfold call; simp; split <;> simp_all
+
+/-- With a defined `L` the four flag combinations are the four regenerated lineshapes. -/
+theorem builder_call_some (v : Variant) (c : Config) (res pool l : Nat) :
+    call v c ⟨res, some l, pool⟩ = (formulate c res pool l, c) := rfl
+
+/-- Witness for the defect class "a call stores a fallback on the instance": one call with
+`L = none` followed by a call with `L = 1` on a full builder gives the plain Breit–Wigner, which a
+fresh builder does not. (Replayable on the real code: see the purity oracle of C12.) -/
+theorem builder_sticky_witness :
+    (run Variant.stickyV ⟨true, true, 0⟩ [⟨0, none, 0⟩, ⟨1, some 1, 0⟩]).1
+      ≠ fresh Variant.soundV ⟨true, true, 0⟩ [⟨0, none, 0⟩, ⟨1, some 1, 0⟩] := by decide
+
+example : run Variant.soundV ⟨true, true, 4⟩ [⟨0, none, 0⟩, ⟨1, some 2, 1⟩]
+    = ([Out.valueError, Out.full 1 1 2 4], ⟨true, true, 4⟩) := by decide
 
 /-! ### Blatt–Weisskopf factors: regenerated table (L = 0..10) and generic table theorems
 
